@@ -4,7 +4,8 @@ CONSTANTS
   Heights = {0}
   MaxBest = 1000000
   MaxStarts = 1000000
+  InPlace = FALSE
   Strict = FALSE
-INVARIANTS AssignedMonotone
+INVARIANTS AssignedMonotone HeaderMatchesId
 POSTCONDITION TraceAccepted
 CHECK_DEADLOCK FALSE
